@@ -29,10 +29,12 @@ pub fn descs() -> Vec<FnDesc> {
 const LEAVES: [&str; 5] = ["t", "f", "n", "v", "e"];
 
 /// operator shapes: (name, arity)
-const OPS: [(&str, usize); 17] = [
+const OPS: [(&str, usize); 27] = [
     ("if", 3), ("and", 2), ("or", 2), ("eq", 2), ("neq", 2), // lazy
-    ("add", 2), ("lt", 2), ("bitand", 2), ("contains", 2), ("list", 2), ("map", 2), // strict binary
-    ("neg", 1), ("int", 1), ("field", 1), ("call", 1), ("some", 1), ("index", 1),
+    // every strict binary node kind (an operand-order slip in one of them must not hide behind a representative)
+    ("add", 2), ("sub", 2), ("mult", 2), ("div", 2), ("rem", 2), ("gt", 2), ("gte", 2), ("lt", 2), ("lte", 2), ("bitand", 2), ("bitor", 2), ("bitxor", 2), ("contains", 2),
+    ("list", 2), ("map", 2),
+    ("neg", 1), ("int", 1), ("field", 1), ("call", 1), ("some", 1), ("index", 1), ("not", 1),
 ];
 
 fn mk(op: &str, mut cs: Vec<Expr>) -> Expr {
@@ -47,8 +49,18 @@ fn mk(op: &str, mut cs: Vec<Expr>) -> Expr {
         "eq" => Expr::eq(next(), next()),
         "neq" => Expr::neq(next(), next()),
         "add" => Expr::add(next(), next()),
+        "sub" => Expr::sub(next(), next()),
+        "mult" => Expr::mult(next(), next()),
+        "div" => Expr::div(next(), next()),
+        "rem" => Expr::rem(next(), next()),
+        "gt" => Expr::gt(next(), next()),
+        "gte" => Expr::gte(next(), next()),
         "lt" => Expr::lt(next(), next()),
+        "lte" => Expr::lte(next(), next()),
         "bitand" => Expr::bitwise_and(next(), next()),
+        "bitor" => Expr::bitwise_or(next(), next()),
+        "bitxor" => Expr::bitwise_xor(next(), next()),
+        "not" => Expr::not(next()),
         "contains" => Expr::contains(next(), next()),
         "list" => Expr::Vec(vec![next(), next()]),
         "map" => {
@@ -273,7 +285,7 @@ fn finish(m: &Merged, tier: Tier) -> Finish {
     let mut f = Finish {
         rule: "every tree is one rule of a ruleset whose five functions t/f/n/v/e (true, false, None, identity, fails) are non-cacheable and log every invocation; every call site carries a unique integer id. The observed log must equal, call by call, the sequence predicted by lazy left-to-right evaluation (reference evaluator), and the reported outcome/error must be the predicted one. Non-trivial = predicted history of length >= 2; distinct by (root kind, predicted history)".into(),
         exhaustive: false,
-        exhaustive_part: "depth 1 (17 operator shapes x all 5^arity leaf assignments) and depth 2 with one composite child in every position are enumerated completely; depth 2 with all children composite and depth 3-4 are seeded random".into(),
+        exhaustive_part: "depth 1 (27 operator shapes — every binary node kind — x all 5^arity leaf assignments) and depth 2 with one composite child in every position are enumerated completely; depth 2 with all children composite and depth 3-4 are seeded random".into(),
         ..Default::default()
     };
     let need = [
